@@ -159,8 +159,20 @@ func (r *Result) Save() {
 	}
 }
 
-// Finish marks the result complete and saves it.
+// Finish marks the result complete and saves it. It is meant to be deferred
+// directly (`defer res.Finish()`): if the test goroutine is panicking (an
+// unguarded call of code under test, or a harness bug) the panic is recorded
+// as a violation instead of being lost behind a "done" result, and re-raised.
 func (r *Result) Finish() {
+	if e := recover(); e != nil {
+		r.Violate("panic:outside-guard", fmt.Sprintf("panic outside any guard: %v\n%s", e, ShortStack()), map[string]interface{}{"case": "panic-outside-guard"})
+		r.finish()
+		panic(e)
+	}
+	r.finish()
+}
+
+func (r *Result) finish() {
 	r.mu.Lock()
 	r.Done = true
 	sort.Strings(r.Requirements)
